@@ -490,7 +490,12 @@ static void op_exec(struct W* w, const char* op) {
         if (n > 3) { sl = get(c, $I(3)); taken[nt++] = deref(sl); ref(sl, NULL); }
         rem(c, $I(0)); TOKSTAT();                       /* emptied entry */
         rem(c, $I(1)); TOKSTAT();                       /* full entry: its token dies */
-        if (n > 2) { set(c, $I(2), $B(new(Tok, $I(k + 100)))); TOKSTAT(); }    /* overwrite: the old value is destructed */
+        if (n > 2) {      /* overwrite: a Table destructs the value it replaces; a Tree assigns over it, so there the
+                             owner takes the old token out first and deletes it */
+          if (type_of(c) is Table) { set(c, $I(2), $B(new(Tok, $I(k + 100)))); }
+          else { var old = deref(get(c, $I(2))); set(c, $I(2), $B(new(Tok, $I(k + 100)))); del(old); }
+          TOKSTAT();
+        }
         P("n=%zu", len(c)); del(c); TOKSTAT();
         for (int i = 0; i < nt; i++) del(taken[i]);
         TOKSTAT(); break;
